@@ -171,6 +171,23 @@ def modelStream (a : Gen.AccRow) (ops : List Op) : Option (List (Watermark × In
   let bd ← bds ops none
   pure (wms.zip bd)
 
+/-- which exit of `calc_blockdep` every kernel operation takes (evidence only) -/
+def pathsOf (a : Gen.AccRow) (ops : List Op) : List String :=
+  let rec go (l : List Op) (prev : Option BlockOp) : List String :=
+    match l with
+    | [] => []
+    | .dma _ :: rest => go rest prev
+    | .block b :: rest =>
+      (match Blockdep.classify a prev b with
+       | none => "error"
+       | some (.noPrev, _) => "noPrev"
+       | some (.lutShram, _) => "lutShram"
+       | some (.both, _) => "both"
+       | some (.noOverlap, _) => "noOverlap"
+       | some (.broadcastIfm2, _) => "broadcastIfm2"
+       | some (.loop, _) => "loop") :: go rest (some b)
+  go ops none
+
 def tripleStr (l : List (Watermark × Int)) : String :=
   ";".intercalate (l.map fun (w, b) => s!"{wmStr w},{b}")
 
@@ -239,7 +256,7 @@ def handle : List String → Option String
     | .error e => some s!"model={model} | decode={e.replace " " "_"}"
     | .ok st =>
       let dec := tripleStr (decodedTriples st)
-      some s!"model={model} | stream={dec} | agree={boolStr (model == dec)} | {specStr a st ex}"
+      some s!"model={model} | stream={dec} | agree={boolStr (model == dec)} | paths={",".intercalate (pathsOf a ops)} | {specStr a st ex}"
   | "c04stream" :: toks => do
     let a ← Gen.accelerators[← parseNat? (← kv toks "acc")]?
     let ex ← parseNat? ((kv toks "explore").getD "0")
